@@ -236,31 +236,159 @@ fn lookup(table: &[(&'static str, &'static str)], ty: &str) -> &'static str {
     table.iter().find(|x| x.0 == ty).map(|x| x.1).unwrap_or("-")
 }
 
-fn add_point(db: &mut Database, ty: &str, idx: u16, class: Option<EventClass>, svar: &str, evar: &str) -> bool {
+fn add_point(
+    db: &mut Database,
+    ty: &str,
+    idx: u16,
+    class: Option<EventClass>,
+    svar: &str,
+    evar: &str,
+) -> bool {
     match ty {
-        "bi" => db.add(idx, class, BinaryInputConfig { s_var: s_bi(svar), e_var: e_bi(evar) }),
-        "dbi" => db.add(idx, class, DoubleBitBinaryInputConfig { s_var: s_dbi(svar), e_var: e_dbi(evar) }),
-        "bos" => db.add(idx, class, BinaryOutputStatusConfig { s_var: s_bos(svar), e_var: e_bos(evar) }),
-        "ctr" => db.add(idx, class, CounterConfig { s_var: s_ctr(svar), e_var: e_ctr(evar), deadband: 0 }),
-        "fctr" => db.add(idx, class, FrozenCounterConfig { s_var: s_fctr(svar), e_var: e_fctr(evar), deadband: 0 }),
-        "ai" => db.add(idx, class, AnalogInputConfig { s_var: s_ai(svar), e_var: e_ai(evar), deadband: 0.0 }),
-        "aos" => db.add(idx, class, AnalogOutputStatusConfig { s_var: s_aos(svar), e_var: e_aos(evar), deadband: 0.0 }),
+        "bi" => db.add(
+            idx,
+            class,
+            BinaryInputConfig {
+                s_var: s_bi(svar),
+                e_var: e_bi(evar),
+            },
+        ),
+        "dbi" => db.add(
+            idx,
+            class,
+            DoubleBitBinaryInputConfig {
+                s_var: s_dbi(svar),
+                e_var: e_dbi(evar),
+            },
+        ),
+        "bos" => db.add(
+            idx,
+            class,
+            BinaryOutputStatusConfig {
+                s_var: s_bos(svar),
+                e_var: e_bos(evar),
+            },
+        ),
+        "ctr" => db.add(
+            idx,
+            class,
+            CounterConfig {
+                s_var: s_ctr(svar),
+                e_var: e_ctr(evar),
+                deadband: 0,
+            },
+        ),
+        "fctr" => db.add(
+            idx,
+            class,
+            FrozenCounterConfig {
+                s_var: s_fctr(svar),
+                e_var: e_fctr(evar),
+                deadband: 0,
+            },
+        ),
+        "ai" => db.add(
+            idx,
+            class,
+            AnalogInputConfig {
+                s_var: s_ai(svar),
+                e_var: e_ai(evar),
+                deadband: 0.0,
+            },
+        ),
+        "aos" => db.add(
+            idx,
+            class,
+            AnalogOutputStatusConfig {
+                s_var: s_aos(svar),
+                e_var: e_aos(evar),
+                deadband: 0.0,
+            },
+        ),
         "oct" => db.add(idx, class, OctetStringConfig),
         x => panic!("bad type {}", x),
     }
 }
 
-fn update_point(db: &mut Database, ty: &str, idx: u16, v: &str, flags: u8, t: Option<Time>, opts: UpdateOptions) -> UpdateInfo {
+fn update_point(
+    db: &mut Database,
+    ty: &str,
+    idx: u16,
+    v: &str,
+    flags: u8,
+    t: Option<Time>,
+    opts: UpdateOptions,
+) -> UpdateInfo {
     let flags = Flags::new(flags);
     match ty {
-        "bi" => db.update2(idx, &BinaryInput { value: v == "1", flags, time: t }, opts),
-        "dbi" => db.update2(idx, &DoubleBitBinaryInput { value: dbit(v), flags, time: t }, opts),
-        "bos" => db.update2(idx, &BinaryOutputStatus { value: v == "1", flags, time: t }, opts),
-        "ctr" => db.update2(idx, &Counter { value: num(v) as u32, flags, time: t }, opts),
-        "fctr" => db.update2(idx, &FrozenCounter { value: num(v) as u32, flags, time: t }, opts),
-        "ai" => db.update2(idx, &AnalogInput { value: f64_of(v), flags, time: t }, opts),
-        "aos" => db.update2(idx, &AnalogOutputStatus { value: f64_of(v), flags, time: t }, opts),
-        "oct" => db.update2(idx, &OctetString::new(&unhex(v)).expect("octet string"), opts),
+        "bi" => db.update2(
+            idx,
+            &BinaryInput {
+                value: v == "1",
+                flags,
+                time: t,
+            },
+            opts,
+        ),
+        "dbi" => db.update2(
+            idx,
+            &DoubleBitBinaryInput {
+                value: dbit(v),
+                flags,
+                time: t,
+            },
+            opts,
+        ),
+        "bos" => db.update2(
+            idx,
+            &BinaryOutputStatus {
+                value: v == "1",
+                flags,
+                time: t,
+            },
+            opts,
+        ),
+        "ctr" => db.update2(
+            idx,
+            &Counter {
+                value: num(v) as u32,
+                flags,
+                time: t,
+            },
+            opts,
+        ),
+        "fctr" => db.update2(
+            idx,
+            &FrozenCounter {
+                value: num(v) as u32,
+                flags,
+                time: t,
+            },
+            opts,
+        ),
+        "ai" => db.update2(
+            idx,
+            &AnalogInput {
+                value: f64_of(v),
+                flags,
+                time: t,
+            },
+            opts,
+        ),
+        "aos" => db.update2(
+            idx,
+            &AnalogOutputStatus {
+                value: f64_of(v),
+                flags,
+                time: t,
+            },
+            opts,
+        ),
+        "oct" => db.update2(
+            idx,
+            &OctetString::new(&unhex(v)).expect("octet string"),
+            opts,
+        ),
         x => panic!("bad type {}", x),
     }
 }
@@ -326,55 +454,135 @@ impl Recorder {
 }
 
 impl ReadHandler for Recorder {
-    fn handle_binary_input(&mut self, info: HeaderInfo, iter: &mut dyn Iterator<Item = (BinaryInput, u16)>) {
+    fn handle_binary_input(
+        &mut self,
+        info: HeaderInfo,
+        iter: &mut dyn Iterator<Item = (BinaryInput, u16)>,
+    ) {
         self.hdr(info);
         for (x, i) in iter {
-            self.lines.push(format!("m bi {} {} {} {}", i, u8::from(x.value), x.flags.value, time_text(x.time)));
+            self.lines.push(format!(
+                "m bi {} {} {} {}",
+                i,
+                u8::from(x.value),
+                x.flags.value,
+                time_text(x.time)
+            ));
         }
     }
-    fn handle_double_bit_binary_input(&mut self, info: HeaderInfo, iter: &mut dyn Iterator<Item = (DoubleBitBinaryInput, u16)>) {
+    fn handle_double_bit_binary_input(
+        &mut self,
+        info: HeaderInfo,
+        iter: &mut dyn Iterator<Item = (DoubleBitBinaryInput, u16)>,
+    ) {
         self.hdr(info);
         for (x, i) in iter {
-            self.lines.push(format!("m dbi {} {} {} {}", i, x.value.to_byte(), x.flags.value, time_text(x.time)));
+            self.lines.push(format!(
+                "m dbi {} {} {} {}",
+                i,
+                x.value.to_byte(),
+                x.flags.value,
+                time_text(x.time)
+            ));
         }
     }
-    fn handle_binary_output_status(&mut self, info: HeaderInfo, iter: &mut dyn Iterator<Item = (BinaryOutputStatus, u16)>) {
+    fn handle_binary_output_status(
+        &mut self,
+        info: HeaderInfo,
+        iter: &mut dyn Iterator<Item = (BinaryOutputStatus, u16)>,
+    ) {
         self.hdr(info);
         for (x, i) in iter {
-            self.lines.push(format!("m bos {} {} {} {}", i, u8::from(x.value), x.flags.value, time_text(x.time)));
+            self.lines.push(format!(
+                "m bos {} {} {} {}",
+                i,
+                u8::from(x.value),
+                x.flags.value,
+                time_text(x.time)
+            ));
         }
     }
     fn handle_counter(&mut self, info: HeaderInfo, iter: &mut dyn Iterator<Item = (Counter, u16)>) {
         self.hdr(info);
         for (x, i) in iter {
-            self.lines.push(format!("m ctr {} {} {} {}", i, x.value, x.flags.value, time_text(x.time)));
+            self.lines.push(format!(
+                "m ctr {} {} {} {}",
+                i,
+                x.value,
+                x.flags.value,
+                time_text(x.time)
+            ));
         }
     }
-    fn handle_frozen_counter(&mut self, info: HeaderInfo, iter: &mut dyn Iterator<Item = (FrozenCounter, u16)>) {
+    fn handle_frozen_counter(
+        &mut self,
+        info: HeaderInfo,
+        iter: &mut dyn Iterator<Item = (FrozenCounter, u16)>,
+    ) {
         self.hdr(info);
         for (x, i) in iter {
-            self.lines.push(format!("m fctr {} {} {} {}", i, x.value, x.flags.value, time_text(x.time)));
+            self.lines.push(format!(
+                "m fctr {} {} {} {}",
+                i,
+                x.value,
+                x.flags.value,
+                time_text(x.time)
+            ));
         }
     }
-    fn handle_analog_input(&mut self, info: HeaderInfo, iter: &mut dyn Iterator<Item = (AnalogInput, u16)>) {
+    fn handle_analog_input(
+        &mut self,
+        info: HeaderInfo,
+        iter: &mut dyn Iterator<Item = (AnalogInput, u16)>,
+    ) {
         self.hdr(info);
         for (x, i) in iter {
-            self.lines.push(format!("m ai {} {:016x} {} {}", i, x.value.to_bits(), x.flags.value, time_text(x.time)));
+            self.lines.push(format!(
+                "m ai {} {:016x} {} {}",
+                i,
+                x.value.to_bits(),
+                x.flags.value,
+                time_text(x.time)
+            ));
         }
     }
-    fn handle_frozen_analog_input(&mut self, info: HeaderInfo, iter: &mut dyn Iterator<Item = (FrozenAnalogInput, u16)>) {
+    fn handle_frozen_analog_input(
+        &mut self,
+        info: HeaderInfo,
+        iter: &mut dyn Iterator<Item = (FrozenAnalogInput, u16)>,
+    ) {
         self.hdr(info);
         for (x, i) in iter {
-            self.lines.push(format!("m fai {} {:016x} {} {}", i, x.value.to_bits(), x.flags.value, time_text(x.time)));
+            self.lines.push(format!(
+                "m fai {} {:016x} {} {}",
+                i,
+                x.value.to_bits(),
+                x.flags.value,
+                time_text(x.time)
+            ));
         }
     }
-    fn handle_analog_output_status(&mut self, info: HeaderInfo, iter: &mut dyn Iterator<Item = (AnalogOutputStatus, u16)>) {
+    fn handle_analog_output_status(
+        &mut self,
+        info: HeaderInfo,
+        iter: &mut dyn Iterator<Item = (AnalogOutputStatus, u16)>,
+    ) {
         self.hdr(info);
         for (x, i) in iter {
-            self.lines.push(format!("m aos {} {:016x} {} {}", i, x.value.to_bits(), x.flags.value, time_text(x.time)));
+            self.lines.push(format!(
+                "m aos {} {:016x} {} {}",
+                i,
+                x.value.to_bits(),
+                x.flags.value,
+                time_text(x.time)
+            ));
         }
     }
-    fn handle_octet_string<'a>(&mut self, info: HeaderInfo, iter: &'a mut dyn Iterator<Item = (&'a [u8], u16)>) {
+    fn handle_octet_string<'a>(
+        &mut self,
+        info: HeaderInfo,
+        iter: &'a mut dyn Iterator<Item = (&'a [u8], u16)>,
+    ) {
         self.hdr(info);
         for (x, i) in iter {
             self.lines.push(format!("m oct {} {} 0 n", i, hex(x)));
@@ -400,7 +608,8 @@ async fn master_side(bytes: &[u8], unsolicited: bool, obs: &mut Vec<String>) {
         Ok(objects) => {
             let header = ResponseHeader::new(ControlField::from(0xC0), func, Iin::default());
             let mut rec = Recorder { lines: Vec::new() };
-            crate::master::extract::extract_measurements(read_type, header, objects, &mut rec).await;
+            crate::master::extract::extract_measurements(read_type, header, objects, &mut rec)
+                .await;
             obs.append(&mut rec.lines);
         }
     }
@@ -432,14 +641,26 @@ pub(crate) async fn run_conv(script: &Script, obs: &mut Vec<String>) {
         let entries: Vec<&[String]> = (0..n).map(|k| &op[4 + 5 * k..9 + 5 * k]).collect();
         match kind {
             "st" => {
-                let mut db = Database::new(None, ClassZeroConfig::new(true, true, true, true, true, true, true, true), EventBufferConfig::no_events());
+                let mut db = Database::new(
+                    None,
+                    ClassZeroConfig::new(true, true, true, true, true, true, true, true),
+                    EventBufferConfig::no_events(),
+                );
                 for e in &entries {
                     let idx = num(&e[0]) as u16;
                     if !add_point(&mut db, ty, idx, None, &e[1], lookup(&DEF_E, ty)) {
                         obs.push(format!("add-failed {}", idx));
                         continue;
                     }
-                    let info = update_point(&mut db, ty, idx, &e[2], num(&e[3]) as u8, time(&e[4]), UpdateOptions::detect_event());
+                    let info = update_point(
+                        &mut db,
+                        ty,
+                        idx,
+                        &e[2],
+                        num(&e[3]) as u8,
+                        time(&e[4]),
+                        UpdateOptions::detect_event(),
+                    );
                     if info != UpdateInfo::NoEvent {
                         obs.push(format!("update {:?}", info).replace(' ', "_"));
                     }
@@ -462,17 +683,36 @@ pub(crate) async fn run_conv(script: &Script, obs: &mut Vec<String>) {
             }
             "ev" => {
                 let max = (n as u16).max(1);
-                let mut db = Database::new(None, ClassZeroConfig::new(true, true, true, true, true, true, true, true), EventBufferConfig::all_types(max));
+                let mut db = Database::new(
+                    None,
+                    ClassZeroConfig::new(true, true, true, true, true, true, true, true),
+                    EventBufferConfig::all_types(max),
+                );
                 let mut seen: Vec<u16> = Vec::new();
                 for e in &entries {
                     let idx = num(&e[0]) as u16;
                     if !seen.contains(&idx) {
                         seen.push(idx);
-                        if !add_point(&mut db, ty, idx, Some(EventClass::Class1), lookup(&DEF_S, ty), &e[1]) {
+                        if !add_point(
+                            &mut db,
+                            ty,
+                            idx,
+                            Some(EventClass::Class1),
+                            lookup(&DEF_S, ty),
+                            &e[1],
+                        ) {
                             obs.push(format!("add-failed {}", idx));
                         }
                     }
-                    let info = update_point(&mut db, ty, idx, &e[2], num(&e[3]) as u8, time(&e[4]), UpdateOptions::new(true, EventMode::Force));
+                    let info = update_point(
+                        &mut db,
+                        ty,
+                        idx,
+                        &e[2],
+                        num(&e[3]) as u8,
+                        time(&e[4]),
+                        UpdateOptions::new(true, EventMode::Force),
+                    );
                     match info {
                         UpdateInfo::Created(_) => {}
                         x => obs.push(format!("update {:?}", x).replace(' ', "_")),
@@ -482,7 +722,9 @@ pub(crate) async fn run_conv(script: &Script, obs: &mut Vec<String>) {
                 let mut cursor = WriteCursor::new(&mut buf);
                 let unsolicited = sel == "c1";
                 if unsolicited {
-                    let k = db.inner.select_event_classes(EventClasses::new(true, false, false));
+                    let k = db
+                        .inner
+                        .select_event_classes(EventClasses::new(true, false, false));
                     if k != n {
                         obs.push(format!("selected {}", k));
                     }
